@@ -150,7 +150,11 @@ impl<'c, E: TElemT> TInterp<'c, E> {
         match op.code {
             ops::INSERT_UNIQUE => {
                 let (id, hash) = self.key(a[0]);
-                self.insert_unique(id, hash, a[1])?;
+                // differential runs avoid exact duplicates: which duplicate a lookup returns may
+                // legitimately differ between the scanner back-ends
+                if self.case.h("nodup") == 0 || self.find_model(id, hash).is_empty() {
+                    self.insert_unique(id, hash, a[1])?;
+                }
             }
             ops::INSERT_DUP => {
                 if !self.model.is_empty() {
@@ -1022,6 +1026,19 @@ impl<'c, E: TElemT> TInterp<'c, E> {
         }
         if !self.lawful {
             self.resync();
+        }
+        if self.case.h("transcript") != 0 {
+            let mut h: u64 = 0xcbf29ce484222325;
+            let _q = Quiet::new();
+            let mut c: Vec<(u64, u32, u64, u64)> = self.table.iter().map(|e| (e.uid(), e.id(), e.hash(), e.payload())).collect();
+            c.sort_unstable();
+            h = (h ^ self.table.len() as u64).wrapping_mul(0x100000001b3);
+            for (a, b, x, y) in c {
+                for v in [a, b as u64, x, y] {
+                    h = (h ^ v).wrapping_mul(0x100000001b3);
+                }
+            }
+            self.out.transcript.push(h);
         }
         let after = Self::dump_of(&self.table);
         let clear_like = matches!(op.code, ops::CLEAR | ops::DRAIN | ops::CLONE_SWAP) || (op.code == ops::ITER && op.a[0] % 3 == 2);
